@@ -134,6 +134,10 @@ def build_tree(ctx):
             if n == '_build_branches':
                 def bb(it, tab, tree, branches, nodes, depth, memo): s.split.append((list(it.iterate(branches)), list(it.iterate(nodes)), depth, dict(memo)))
                 return Contract(bb, 'Tree._build_branches (C16.Tree._build_branches.sums)')
+            # private helpers the real class defines for itself (e.g. extracted by a refactoring) are followed from source
+            from pyvc.interp import private_helper
+            ok_, v_ = private_helper(it, Tableau.Tree, n, s)
+            if ok_: return v_
             raise Outside(f'Tree.{n}')
     def N(name): 
         t = Tok(name); t.name = name; return t
